@@ -447,7 +447,7 @@ class Session:
                     self.snapshot = cur
                 if expect_reject:
                     stats["frozen_rejected"] = stats.get("frozen_rejected", 0) + 1
-                    data_err = last["op"] == "iop" and impl["exc"] in ("KeyError", "IndexError", "TypeError", "AttributeError", "ZeroDivisionError")
+                    data_err = last["op"] == "iop" and impl["exc"] in ("KeyError", "IndexError", "TypeError", "AttributeError", "ZeroDivisionError", "OverflowError")
                     if impl["exc"] != "ValueError" and not data_err:
                         self.fail("C17", "no-ValueError", {"op": last["op"], "exc": impl["exc"]})
                     if ml.canon_val(impl["store"]) != prev_store:
@@ -503,7 +503,7 @@ class Session:
                     self.c01_live = False   # values downstream of the failed update are legitimately stale
                 elif impl["exc"] == "ok":
                     stats["faults_not_reached"] += 1
-                elif impl["exc"] not in ("KeyError", "IndexError", "TypeError", "AttributeError", "ZeroDivisionError", "ValueError"):
+                elif impl["exc"] not in ("KeyError", "IndexError", "TypeError", "AttributeError", "ZeroDivisionError", "OverflowError", "ValueError"):
                     self.fail("C18", "fault-swallowed-or-changed", {"path": p, "exc": impl["exc"]})
             if op.get("_repeat") and impl["exc"] == "ok":
                 # the repeated assignment must re-establish everything downstream of it
@@ -518,7 +518,7 @@ class Session:
                                 continue
                             if not same(got, want):
                                 self.fail("C18", "stale-after-repeat", {"location": d[1], "got": repr(got), "want": repr(want)})
-            elif op.get("_repeat") and impl["exc"] not in ("KeyError", "IndexError", "TypeError", "AttributeError", "ZeroDivisionError"):
+            elif op.get("_repeat") and impl["exc"] not in ("KeyError", "IndexError", "TypeError", "AttributeError", "ZeroDivisionError", "OverflowError"):
                 self.fail("C18", "repeat-raises", {"path": p, "exc": impl["exc"]})
             # ---- C01: pull-model re-evaluation
             if impl["exc"] != "ok" and not (frozen and impl["exc"] == "ValueError"):
